@@ -13,7 +13,9 @@ re-checks every theorem below that evaluates them.
 on both sides (trusted, DESIGN §C20).
 
 The full statement `C20_full` does **not** hold for the code as it is (DESIGN §7 #19): counterexample theorems `cex_…`
-are proved below, and the per-(format, cause) classes are the committed table `known_findings.d/C20.json`.
+are proved below, and the per-(format, cause) classes are the committed table `known_findings.d/C20.json`. The LQL
+lower-casing cause (F19a) is repaired in /repo (ab30677): `lql_T_literal_is_noon`; so are the `DDDD` expression (F19d,
+65e6bcc: `wednesday_accepted`) and the damaged `MST` literal (F19m, bf37a58: `unixdate_claimed_by_format_2`).
 -/
 namespace Logrange.Props.C20
 open Logrange.Date Logrange.Generated
@@ -189,49 +191,61 @@ def C20_full (fmts : List CFormat) (parse : Bytes → PRes) : Prop :=
 
 def now0 : Now := ⟨2026, 9, 26⟩
 
-/-- `2019-03-11T12:00:00Z` as an LQL literal: lower-casing turns `T` into `t`, the ISO formats no longer match, and
-`YYYY-MM-DD` (format 52) claims the date part — midnight instead of noon. -/
-theorem cex_lql_T_lowercased :
+/-- unit and number text of a relative answer -/
+def relHead : LqlRes → Option (UInt8 × Bytes)
+  | .rel u num _ => some (u, num)
+  | _ => none
+
+/-- **`2019-03-11T12:00:00Z` as an LQL literal denotes noon UTC** (fixed finding F19a, /repo ab30677): the format list sees
+the literal as written, `YYYY-MM-DDTHH:mm:ssZ` (format 39) claims it. Evaluated with the regenerated switches, so a
+return of the lower-casing (`lqlFormatsSeeLowerCased = true`) breaks this obligation. -/
+theorem lql_T_literal_is_noon :
     parseLql gcfg lqlFmts now0 [50, 48, 49, 57, 45, 48, 51, 45, 49, 49, 84, 49, 50, 58, 48, 48, 58, 48, 48, 90]
+      = .abs 39 ⟨2019, 3, 11, 12, 0, 0, 0, .dflt⟩ := by decide +kernel
+
+/-- the format list is handed the literal as written: the switch the extractor reads from `parseLqlDateTime` now -/
+theorem lql_formats_see_literal_as_written : C20.lqlFormatsSeeLowerCased = false := by decide
+
+/-- what the defect was (kept as a statement about the model with the switch turned back on): lower-casing turns `T` into
+`t`, the ISO formats no longer match, and `YYYY-MM-DD` (format 52) claims the date part — midnight instead of noon. -/
+theorem lowercasing_would_give_midnight :
+    parseLql { gcfg with fmtLower := true } lqlFmts now0 [50, 48, 49, 57, 45, 48, 51, 45, 49, 49, 84, 49, 50, 58, 48, 48, 58, 48, 48, 90]
       = .abs 52 ⟨2019, 3, 11, 0, 0, 0, 0, .dflt⟩ := by decide +kernel
 
-/-- …and without the lower-casing (the proposed repair F19a) the same literal is claimed by `YYYY-MM-DDTHH:mm:ssZ`
-(format 39) and gives noon. -/
-theorem lql_T_without_lowercasing :
-    parseLql { gcfg with fmtLower := false } lqlFmts now0 [50, 48, 49, 57, 45, 48, 51, 45, 49, 49, 84, 49, 50, 58, 48, 48, 58, 48, 48, 90]
-      = .abs 39 ⟨2019, 3, 11, 12, 0, 0, 0, .dflt⟩ := by decide +kernel
+/-- upper-case relative literals and constants are still accepted (the lower-cased text is kept for them): `-90M`, `WEEK` -/
+theorem relative_and_constants_case_insensitive :
+    relHead (parseLql gcfg lqlFmts now0 [45, 57, 48, 77]) = some (109, [57, 48]) ∧
+    parseLql gcfg lqlFmts now0 [87, 69, 69, 75] = .const 3 := by decide +kernel
 
 /-- `2019/01/01` handed to the collector: the earlier, unanchored `DD/MM/YY` (format 25) claims `19/01/01` — 2001-01-19. -/
 theorem cex_slash_date_shadowed :
     parseFirst gadj colFmts now0 [50, 48, 49, 57, 47, 48, 49, 47, 48, 49] = .ok 25 ⟨2001, 1, 19, 0, 0, 0, 0, .dflt⟩ := by
   decide +kernel
 
-/-- `Mon Jan  2 15:04:05 MST 2006` (Go's UnixDate): format 2 `DDD MMM _D HH:mm:ss MST YYYY` does not accept its own text —
-the sequential replacement turned its literal `MST` into `1ST` (layout) / `\d{1,2}ST` (expression) — and the year-less
-`MMM _D HH:mm:ss` (format 58) claims it: the year is the current one, not 2006. -/
-theorem cex_unixdate_wrong_year :
-    parseFirst gadj colFmts now0
-      [77, 111, 110, 32, 74, 97, 110, 32, 32, 50, 32, 49, 53, 58, 48, 52, 58, 48, 53, 32, 77, 83, 84, 32, 50, 48, 48, 54]
-      = .ok 58 ⟨2026, 1, 2, 15, 4, 5, 0, .dflt⟩ := by decide +kernel
+/-- **the UnixDate text `Mon Mar 11 13:14:15 UTC 2019` is claimed by format 2 and gives the year 2019**, in the collector
+list and as an LQL literal (fixed finding F19m, /repo bf37a58: format 2 names its zone with the term `ZZZ`; before, its
+literal `MST` was rewritten to `1ST` by the sequential term replacement and a year-less format claimed the text with the
+current year). Evaluated on the regenerated lists and terms. -/
+theorem unixdate_claimed_by_format_2 :
+    parseFirst gadj colFmts now0 [77, 111, 110, 32, 77, 97, 114, 32, 49, 49, 32, 49, 51, 58, 49, 52, 58, 49, 53, 32, 85, 84, 67, 32, 50, 48, 49, 57] = .ok 2 ⟨2019, 3, 11, 13, 14, 15, 0, .utc⟩ ∧
+    parseLql gcfg lqlFmts now0 [77, 111, 110, 32, 77, 97, 114, 32, 49, 49, 32, 49, 51, 58, 49, 52, 58, 49, 53, 32, 85, 84, 67, 32, 50, 48, 49, 57] = .abs 2 ⟨2019, 3, 11, 13, 14, 15, 0, .utc⟩ := by decide +kernel
 
-/-- the damaged layout of format 2, as the code derives it: `Mon Jan _2 15:04:05 1ST 2006` -/
-theorem cex_mst_layout_damaged :
-    dateMap gterms [68, 68, 68, 32, 77, 77, 77, 32, 95, 68, 32, 72, 72, 58, 109, 109, 58, 115, 115, 32, 77, 83, 84, 32, 89, 89, 89, 89]
-      = [77, 111, 110, 32, 74, 97, 110, 32, 95, 50, 32, 49, 53, 58, 48, 52, 58, 48, 53, 32, 49, 83, 84, 32, 50, 48, 48, 54] := by
-  decide +kernel
+/-- Go's own `time.UnixDate` reference text `Mon Jan  2 15:04:05 MST 2006` (blank-padded day, zone abbreviation MST) is
+claimed by format 2 as well: 2006, fabricated zone `MST` of offset 0 -/
+theorem unixdate_reference_text :
+    parseFirst gadj colFmts now0 [77, 111, 110, 32, 74, 97, 110, 32, 32, 50, 32, 49, 53, 58, 48, 52, 58, 48, 53, 32, 77, 83, 84, 32, 50, 48, 48, 54] = .ok 2 ⟨2006, 1, 2, 15, 4, 5, 0, .named [77, 83, 84] 0⟩ := by decide +kernel
 
-/-- own-regexp counterexample: format 2 alone rejects its own text -/
-theorem cex_mst_format_rejects_own_text :
-    parseFirst gadj [compile gterms [68, 68, 68, 32, 77, 77, 77, 32, 95, 68, 32, 72, 72, 58, 109, 109, 58, 115, 115, 32, 77, 83, 84, 32, 89, 89, 89, 89]] now0
-      [77, 111, 110, 32, 74, 97, 110, 32, 32, 50, 32, 49, 53, 58, 48, 52, 58, 48, 53, 32, 77, 83, 84, 32, 50, 48, 48, 54] = .err := by
-  decide +kernel
+/-- the layout the code derives for format 2 is Go's UnixDate layout, intact: `Mon Jan _2 15:04:05 MST 2006` -/
+theorem unixdate_layout_intact :
+    C20.collectorFormats[2]? = some [68, 68, 68, 32, 77, 77, 77, 32, 95, 68, 32, 72, 72, 58, 109, 109, 58, 115, 115, 32, 90, 90, 90, 32, 89, 89, 89, 89] ∧ C20.lqlFormats[2]? = some [68, 68, 68, 32, 77, 77, 77, 32, 95, 68, 32, 72, 72, 58, 109, 109, 58, 115, 115, 32, 90, 90, 90, 32, 89, 89, 89, 89] ∧
+    dateMap gterms [68, 68, 68, 32, 77, 77, 77, 32, 95, 68, 32, 72, 72, 58, 109, 109, 58, 115, 115, 32, 90, 90, 90, 32, 89, 89, 89, 89] = [77, 111, 110, 32, 74, 97, 110, 32, 95, 50, 32, 49, 53, 58, 48, 52, 58, 48, 53, 32, 77, 83, 84, 32, 50, 48, 48, 54] := by decide +kernel
 
-/-- own-regexp counterexample: `DDDD, YY-MMM-DD HH:mm:ss ZZZ` (format 4) rejects a Wednesday — `DDDD` is
-`[A-Z][a-z]{5,7}` and `Wednesday` has eight lower-case letters. Text: `Wednesday, 19-Apr-03 13:14:15 UTC`. -/
-theorem cex_wednesday_rejected :
-    parseFirst gadj colFmts now0
-      [87, 101, 100, 110, 101, 115, 100, 97, 121, 44, 32, 49, 57, 45, 65, 112, 114, 45, 48, 51, 32, 49, 51, 58, 49, 52, 58, 49, 53, 32, 85, 84, 67]
-      = .err := by decide +kernel
+/-- **a Wednesday in `DDDD, YY-MMM-DD HH:mm:ss ZZZ` (format 4) is accepted and denotes its instant** (fixed finding F19d,
+/repo 65e6bcc: `DDDD` is `[A-Z][a-z]{5,8}`; with `{5,7}` the eight lower-case letters of `Wednesday` could not match).
+Text: `Wednesday, 19-Apr-03 13:14:15 UTC`, collector list and LQL literal. -/
+theorem wednesday_accepted :
+    parseFirst gadj colFmts now0 [87, 101, 100, 110, 101, 115, 100, 97, 121, 44, 32, 49, 57, 45, 65, 112, 114, 45, 48, 51, 32, 49, 51, 58, 49, 52, 58, 49, 53, 32, 85, 84, 67] = .ok 4 ⟨2019, 4, 3, 13, 14, 15, 0, .utc⟩ ∧
+    parseLql gcfg lqlFmts now0 [87, 101, 100, 110, 101, 115, 100, 97, 121, 44, 32, 49, 57, 45, 65, 112, 114, 45, 48, 51, 32, 49, 51, 58, 49, 52, 58, 49, 53, 32, 85, 84, 67] = .abs 4 ⟨2019, 4, 3, 13, 14, 15, 0, .utc⟩ := by decide +kernel
 
 /-- `12:05 AM` on `11/3/2019` handed to the collector: the 24-hour `D/M/YYYY HH:mm` (format 18) listed before
 `D/M/YYYY h:mm P` claims it — 12:05 (noon) instead of 00:05. -/
